@@ -242,7 +242,7 @@ def gcWalk (c : OciCfg) (blobs : List Node) (g : GMem) : Nat → Node → Except
       else .ok false
 
 /-- `gcIndex` (`oci.go:529-583`); `fixed` selects the repaired subject walk. -/
-def gcIndex (c : OciCfg) (fixed : Bool) (st : OciSt) (fuel : Nat) : Except OErr OciSt :=
+def gcIndex (c : OciCfg) (fixed repeatPass : Bool) (st : OciSt) (fuel : Nat) : Except OErr OciSt :=
   let fresh : OciSt := { OciSt.empty with blobs := st.blobs, indexFile := st.indexFile,
                                            autoSave := st.autoSave, autoGC := st.autoGC }
   -- 1. tagged manifests
@@ -255,22 +255,30 @@ def gcIndex (c : OciCfg) (fixed : Bool) (st : OciSt) (fuel : Nat) : Except OErr 
   let rest := st.refs.filter fun e => match e.1 with
     | .dig _ => !taggedNodes.contains e.2.1
     | .tag _ => false
-  rest.foldl (fun acc e =>
-    match acc with
-    | .error err => .error err
-    | .ok s =>
-      let w := if fixed then gcWalk c st.blobs s.graph fuel e.2.1 else gcWalkBuggy c s.graph e.2.1
-      match w with
+  -- one pass over the untagged digest entries that are not indexed yet
+  let pass (acc : Except OErr OciSt) : Except OErr OciSt :=
+    rest.foldl (fun acc e =>
+      match acc with
       | .error err => .error err
-      | .ok false => .ok s
-      | .ok true =>
-        let s' := s.resolverTag e.2.1 e.2.2 (.dig e.2.1)
-        .ok { s' with graph := GMem.indexAll (succOf c st.blobs) fuel s'.graph e.2.1 }) (.ok s1)
+      | .ok s =>
+        if s.graph.exists_ e.2.1 && (s.lookupRef (.dig e.2.1)).isSome then .ok s   -- done in an earlier pass
+        else
+        let w := if fixed then gcWalk c st.blobs s.graph fuel e.2.1 else gcWalkBuggy c s.graph e.2.1
+        match w with
+        | .error err => .error err
+        | .ok false => .ok s
+        | .ok true =>
+          let s' := s.resolverTag e.2.1 e.2.2 (.dig e.2.1)
+          .ok { s' with graph := GMem.indexAll (succOf c st.blobs) fuel s'.graph e.2.1 }) acc
+  -- the pass is repeated until it indexes nothing new (`repeat`): a referrer may only become
+  -- reachable through another referrer; `rest.length` passes reach the fixed point
+  if repeatPass then (List.range (rest.length + 1)).foldl (fun acc _ => pass acc) (.ok s1)
+  else pass (.ok s1)
 
 /-- `Store.GC` (`oci.go:474-525`): reload the index, then remove every blob file whose
     digest is not a node of the new graph.  `saveAfter` models the repair of F5. -/
-def gc (c : OciCfg) (fixed saveAfter : Bool) (st : OciSt) (fuel : Nat) : OciSt × Except OErr Unit :=
-  match gcIndex c fixed st fuel with
+def gc (c : OciCfg) (fixed repeatPass saveAfter : Bool) (st : OciSt) (fuel : Nat) : OciSt × Except OErr Unit :=
+  match gcIndex c fixed repeatPass st fuel with
   | .error e => (st, .error e)
   | .ok s =>
     let s' := { s with blobs := s.blobs.filter (fun b => s.graph.nodes b) }
